@@ -185,6 +185,7 @@ func init() {
 		verifierSiblingRules(c)
 		arithmeticFoundations(c)
 		groupFoundations(c, true)
+		ownershipRules(c) // expanded keys and batch entries own what they cache
 		readFullRule(c)
 		latticeRules(c)
 	}
